@@ -8,4 +8,5 @@ Extraction "c15_model.ml"
   mem_write mem_cmd_write read_changes obs_tuples obs_log empty_state
   sql_write_c sql_cmd_write_c sql_obs_tuples sql_obs_log sql_read_changes lrow_obs eng_empty
   spec_write cmd_validate wf_request wf_store wf_key nodup_keys req_keys key_eqb
-  trig_mem_ctx trig_partial_match trig_sql_ctx obs_change type_ok.
+  trig_mem_ctx trig_partial_match trig_sql_ctx obs_change type_ok
+  read_changes_cmd follow_tokens sql_read_page sql_follow_tokens.
